@@ -10,6 +10,16 @@
    happens-before edges).  Traces are validated against TransportTrace.tla: every call returns (never stuck), teardown
    results are clean errors, no callback starts after stop/destruction returned to a non-callback caller; a crashed or
    sanitizer-aborted execution is a violation.
+3. The REAL TcpEngine and UdpEngine (plain and batched I/O loop): spec/transport/EngineShutdown.tla (Impl of enqueue / process /
+   stop / shutdownDrain at critical-section grain; what does a command that races the shutdown get?) is model-checked - with
+   each of its four deviation flags it must violate an invariant -, and programs with the same operations (connect, send,
+   close, addListener, stop from one or two threads, stop/start cycles, the last owner letting go on an application thread or
+   inside a callback) run on the real engines over loopback UNDER THE SCHEDULER: harness/vf/sched_io.cpp turns the I/O
+   thread's epoll_wait and addListener's future wait into schedule points, so where the I/O thread stands inside process() /
+   shutdownDrain() when a call arrives is chosen by the schedule (seeded random, random with unfair time-outs, DFS), again
+   under ASan and TSan.  Traces are validated against EngineTrace.tla (every call returns; no callback after a stop()
+   returned; calls begun afterwards fail; every identifier the application has seen is closed when stop() returns; no
+   write() to a closed descriptor).
 """
 import os, json, concurrent.futures as cf
 import vf
@@ -44,6 +54,90 @@ PROGS = [
     "8 | io=accept:1,waitflag:s,data:1:2,close:1 ; main=mode:1:sync,armreset,setflag:s",
     "8 | io=accept:1,waitflag:s,close:1 ; main=mode:1:sync,armreset,setflag:s ; a=recv:1:4:100000",
 ]
+
+
+ENGINE_PROGS = [
+    "main=listen,peer:1,peer:2,waitn:2,setflag:g,stop ; a=waitflag:g,send:1:10,close:1,send:2:5 ; b=waitflag:g,connect,send:0:3,close:0",
+    "main=listen,setflag:g,connect,connect,stop ; a=waitflag:g,connect,send:0:4,close:0,connect ; b=waitflag:g,listen,connect",
+    "main=listen,peer:1,waitn:1,setflag:g,psend:1:8,stop ; a=waitflag:g,stop ; b=waitflag:g,send:1:3,close:1",
+    "main=listen,connect,waitn:1,setflag:g,stop,start,listen,connect,waitn:2,stop ; a=waitflag:g,send:1:3,send:2:3,close:1",
+    "main=listen,peer:1,waitn:1,cbdrop,psend:1:4",
+    "main=listen,peer:1,peer:2,waitn:2,cbdrop,pclose:1",
+    "main=listen,connect,waitn:1,setflag:g,drop ; a=waitflag:g,send:1:5,close:2,drop ; b=waitflag:g,connect,drop",
+    "main=listen,setflag:g,stop ; a=waitflag:g,listen,connect,listen ; b=waitflag:g,connect,stop,connect,send:0:2",
+]
+# the programs of EngineShutdown.tla: Prog[t] per thread
+ENGINE_MODELS = [
+    {"a": ["connect", "stop"], "b": ["connect", "listen", "send", "stop"]},
+    {"a": ["listen", "connect"], "b": ["stop", "connect"], "c": ["send", "stop"]},
+]
+ENGINE_DEVS = {"Dev_ResidualConnectDropped": "StopClosesAll", "Dev_ResidualListenDropped": "NoStrandedListen",
+               "Dev_CloseFdOutsideLock": "NoBadWrite", "Dev_StopLoserReturnsEarly": "StopClosesAll"}
+ENGINE_ACTIONS = ["Enq", "ListenDone", "StopCas", "StopEnq", "StopJoin", "Wake", "Exec", "BatchEnd", "DrainSwap", "DrainEnd",
+                  "CloseSessions", "CloseQueue", "Residual"]
+
+
+def engine_nontrivial(evs):
+    stop = [i for i, e in enumerate(evs) if e["e"] == "LifeCall" and e.get("op") in ("stop", "destroy")]
+    return bool(stop) and any(e["e"] in ("ConnRet", "SendRet", "CloseRet", "ListenRet", "Close") for e in evs[stop[0]:])
+
+
+def engine_part(ck, thorough):
+    tla_path = os.path.join(SPECDIR, "EngineShutdown.tla")
+    jobs = []
+    for mi, progs in enumerate(ENGINE_MODELS if thorough else ENGINE_MODELS[:2]):
+        d = os.path.join(ck.work, "engine_m%d" % mi)
+        os.makedirs(d, exist_ok=True)
+        with open(os.path.join(d, "MCEngineShutdown.tla"), "w") as f:
+            f.write("---- MODULE MCEngineShutdown ----\nEXTENDS EngineShutdown\nMCThreads == %s\nMCProg == %s\n====\n" % (
+                vf.tla(set(progs)), " @@ ".join("(%s :> %s)" % (vf.tla(t), vf.tla(tuple(ops))) for t, ops in sorted(progs.items()))))
+        for dev in [None] + (list(ENGINE_DEVS) if mi == 0 else []):
+            consts = {"Threads": "<- MCThreads", "Prog": "<- MCProg"}
+            for fl in ENGINE_DEVS:
+                consts[fl] = fl == dev
+            cfg = os.path.join(d, "MC_%s.cfg" % (dev or "code"))
+            vf.write_cfg(cfg, constants=consts, invariants=["NoBadWrite", "NoCallbackAfterStop", "StopClosesAll", "NoStrandedListen", "NoStuck"],
+                         spec="FairSpec", properties=["Terminates"] if dev is None else [])
+            jobs.append((mi, dev, os.path.join(d, "MCEngineShutdown.tla"), cfg))
+
+    def go(job):
+        mi, dev, m, cfg = job
+        return job, vf.run_tlc(m, cfg, tag="C05_eng%d_%s" % (mi, dev or "code"), workers=2, coverage=dev is None, timeout=900, lib_dirs=[SPECDIR])
+    with cf.ThreadPoolExecutor(max_workers=5) as ex:
+        res = list(ex.map(go, jobs))
+    cov = {}
+    for (mi, dev, m, cfg), r in res:
+        if r.error:
+            raise vf.Infra("TLC failed on EngineShutdown m%d %s: %s" % (mi, dev, r.error))
+        ck.states += r.distinct
+        ck.transitions += r.generated
+        if dev:
+            if r.violated != ENGINE_DEVS[dev]:
+                raise vf.Infra("self-test: EngineShutdown.tla with %s should violate %s, got %r" % (dev, ENGINE_DEVS[dev], r.violated))
+            continue
+        for a, (tk, gn) in r.coverage.items():
+            cov[a] = cov.get(a, 0) + gn
+        ck.note("EngineShutdown.tla program %d: %s" % (mi, r.summary()))
+        if r.violated:
+            rp = ck.save_replay("impl_engine_%d" % mi, {"tlc.out": r.out})
+            ck.violation("EngineShutdown.tla (the design the engines follow) violates %s" % r.violated, rp)
+    for a in ENGINE_ACTIONS:
+        if cov.get(a, 0) == 0:
+            raise vf.Infra("self-test: EngineShutdown action %s never taken" % a)
+        ck.cov["Engine." + a] = cov[a]
+    ck.make(tc.ENGINE_DRV, tc.ENGINE_DRV + ".asan", tc.ENGINE_DRV + ".tsan")
+    kw = dict(drv=tc.ENGINE_DRV, spec="EngineTrace")
+    n = 60 if thorough else 10
+    lines = []
+    for proto in ("tcp", "udp", "tcpb", "udpb"):
+        for pi, p in enumerate(ENGINE_PROGS):
+            for k in range(n if proto in ("tcp", "udp") else max(2, n // 3)):
+                lines.append("%s | %s | %s %d" % (proto, p, "random" if k % 3 else "randomt", ck.seed * 7001 + pi * 131 + k))
+    tc.run_cases(ck, lines, "engine_random", engine_nontrivial, **kw)
+    tc.run_cases(ck, lines[::3], "engine_asan", engine_nontrivial, variant=".asan", **kw)
+    tc.run_cases(ck, lines[1::3], "engine_tsan", engine_nontrivial, variant=".tsan", **kw)
+    for j, (proto, pi) in enumerate([("tcp", 1), ("udp", 7)] if not thorough else [("tcp", 1), ("udp", 7), ("tcp", 2), ("tcpb", 0), ("udp", 3), ("tcp", 7)]):
+        tc.run_dfs(ck, "%s | %s" % (proto, ENGINE_PROGS[pi]), 1 if not thorough else 2, 12000 if thorough else 500, "engine_dfs%d" % j, engine_nontrivial, **kw)
 
 
 def run(ck):
@@ -113,6 +207,7 @@ def run(ck):
                 ck.classify({"spec": "StopTrace", "proto": proto}, "real %s engine: %s" % (proto, json.dumps(evs[v.maxl - 1]) if v.maxl <= len(evs) else "?"), rp)
     for j, p in enumerate(PROGS[:2] + PROGS[3:4] if not thorough else PROGS):
         tc.run_dfs(ck, p, 1 if not thorough else 2, 30000 if thorough else 1500, "dfs%d" % j, nontrivial)
+    engine_part(ck, thorough)
 
 
 def replay(ck, path):
